@@ -807,8 +807,68 @@ def _fixtime_one_compare_deleted(dsp, t, y, pv, v):
 
 
 # ------------------------------------------------------------------ driver
+def check_forms(res):
+    """specifications, PSD tables, signals and time vectors held in any integer dtype (signed, unsigned, narrow), in
+    lists/tuples, Fortran order or strided views give the result of the same VALUES as C-ordered float64; the arguments
+    are never modified"""
+    from pyyeti import dsp, psd
+
+    msgs = []
+    Fq = np.array([10, 20, 40, 100, 250], dtype=np.int64)
+    Pv = np.array([[200, 3], [10, 3], [250, 12], [1, 12], [254, 1]], dtype=np.int64)
+    yi = np.array([200, 10, 250, 1, 254, 3, 128, 90, 253, 2, 2, 77, 30, 180, 60, 240], dtype=np.int64)
+    ti = np.array([3, 4, 5, 7, 8, 9, 10, 12, 13, 14, 15, 16, 18, 19, 20, 21], dtype=np.int64)
+    DT = [np.uint8, np.uint16, np.uint32, np.uint64, np.int16, np.int32, np.int64]
+
+    def cast(a, dt):
+        if dt == "list":
+            return a.tolist()
+        if dt == "fortran":
+            return np.asfortranarray(a.astype(float))
+        if dt == "strided":
+            big = np.full(tuple(2 * n + 1 for n in a.shape), 7.0)
+            big[tuple(slice(1, None, 2) for _ in a.shape)] = a
+            return big[tuple(slice(1, None, 2) for _ in a.shape)]
+        return a.astype(dt)
+
+    spec2 = np.column_stack((Fq, Pv))
+    calls = {
+        "area(2d spec)": lambda dt: [psd.area(cast(spec2, dt) if dt != "list" else np.array(spec2.tolist()))],
+        "area((f, p))": lambda dt: [psd.area((cast(Fq, dt), cast(Pv[:, 0], dt)))],
+        "interp(2d spec)": lambda dt: [psd.interp(cast(spec2, dt) if dt != "list" else np.array(spec2.tolist()), [10.0, 15.0, 77.0, 250.0])],
+        "interp((f, p), linear)": lambda dt: [psd.interp((cast(Fq, dt), cast(Pv, dt)), [12.5, 40.0, 200.0], linear=True)],
+        "interp(freq as dtype)": lambda dt: [psd.interp(spec2.astype(float), cast(np.array([10, 15, 77, 250]), dt))],
+        "rescale(P, F)": lambda dt: list(psd.rescale(cast(Pv, dt), cast(Fq * 2, dt) if dt not in (np.uint8,) else cast(Fq * 2, np.uint16))[:2]),
+        "rescale(freq=...)": lambda dt: list(psd.rescale(Pv[:, 0].astype(float), Fq.astype(float), freq=cast(np.array([12, 30, 90, 200]), dt))[:2]),
+        "resample(3/2)": lambda dt: [dsp.resample(cast(yi, dt), 3, 2)],
+        "resample(2-D, axis 0, 2/3)": lambda dt: [dsp.resample(cast(np.column_stack((yi, yi[::-1])), dt), 2, 3, axis=0, pts=5)],
+        "fixtime((t, y))": lambda dt: list(dsp.fixtime((cast(ti, dt), cast(yi, dt)), sr=1.0, verbose=False)),
+        "fixtime(2d)": lambda dt: list(dsp.fixtime(cast(np.column_stack((ti, yi)), dt) if dt != "list" else np.array(np.column_stack((ti, yi)).tolist()), sr=1.0, verbose=False)),
+    }
+    for cname, fn in calls.items():
+        try:
+            base = [np.asarray(a, float) for a in fn(float)]
+        except Exception as e:  # noqa
+            msgs.append((dict(part="forms", call=cname, form="float64"), "%s raised %r for float64 input" % (cname, e)))
+            continue
+        for dt in DT + ["list", "fortran", "strided"]:
+            nm = dt if isinstance(dt, str) else np.dtype(dt).name
+            case = dict(part="forms", call=cname, form=nm)
+            try:
+                got = [np.asarray(a, float) for a in fn(dt)]
+            except Exception as e:  # noqa
+                msgs.append((case, "%s raised %r for input given as %s" % (cname, e, nm)))
+                continue
+            res.ev("forms/%s/%s" % (cname, nm))
+            ok = all(a.shape == b.shape and np.allclose(a, b, rtol=1e-13, atol=0, equal_nan=True) for a, b in zip(got, base))
+            if not ok:
+                msgs.append((case, "%s: input given as %s gives a different result than the same values as float64 (max diff %.3g)"
+                             % (cname, nm, max([float(np.nanmax(np.abs(a - b))) for a, b in zip(got, base) if a.shape == b.shape and a.size] + [float("nan")][:0] or [float("nan")]))))
+    return msgs
+
+
 def shards(tier, seed):
-    out = []
+    out = [dict(part="forms")]
     for f0, p0 in itertools.product((20.0, 0.5), (0.01, 3.0)):
         for nseg in (1, 2):
             out.append(dict(part="area", f0=f0, p0=p0, nseg=nseg))
@@ -842,6 +902,11 @@ def _same(a, b):
 
 def _run(sh, res):
     part = sh["part"]
+    if part == "forms":
+        m = check_forms(res)
+        if "call" in sh:
+            m = [x for x in m if x[0].get("call") == sh["call"] and x[0].get("form") == sh["form"]]
+        return m
     if part == "area":
         if "slopes" in sh:
             return check_area(sh["f0"], sh["p0"], [tuple(sh["slopes"])], res)
